@@ -426,6 +426,19 @@ def add_relations(rng, prog, feat):
     als = {}
     for al in prog.get("aliases", []):
         als.setdefault(a.resolve(al["id"]), []).append(al["id"])
+    if rng.random() < 3 * f.get("p_self_conflict_nonexcl", 0.0):
+        # ... and the ill-formed variant: one transaction whose calls of x and y are exclusive for some pairs of call
+        # sites only (rejected by a correct library; accepted by one that compares the call sites pairwise)
+        opts = []
+        for t in a.transactions:
+            ms = a.tree_methods.get(t, [])
+            for i, x in enumerate(ms):
+                for y in ms[i + 1:]:
+                    if a.self_conflict_mixed(t, x, y):
+                        opts.append((x, y))
+        if opts:
+            x, y = rng.choice(opts)
+            cands.insert(0, {"kind": "conflict", "a": x, "b": y, "prio": rng.choice(["U", "L", "R"]), "_force": True})
     for r in cands:
         for side in ("a", "b"):
             if r[side] in als and rng.random() < 0.3:
@@ -444,7 +457,7 @@ def add_relations(rng, prog, feat):
                 # exclusive paths a valid design; on non-exclusive paths ill-formed (rejected since the fix) and
                 # generated only where the property under test speaks about it (C02)
                 excl = all(ta.self_conflict_exclusive(x, ta.resolve(r["a"]), ta.resolve(r["b"])) for x, _ in selfs)
-                if rng.random() >= (f.get("p_self_conflict_excl", 0.0) if excl else f.get("p_self_conflict_nonexcl", 0.0)):
+                if not r.get("_force") and rng.random() >= (f.get("p_self_conflict_excl", 0.0) if excl else f.get("p_self_conflict_nonexcl", 0.0)):
                     continue
         if d and not f.get("p_self_conflict_nonexcl"):
             continue
@@ -453,6 +466,8 @@ def add_relations(rng, prog, feat):
             if set(ta.trans_for.get(r["a"], [])) & set(ta.trans_for.get(r["b"], [])):
                 continue
         prog = trial
+    for r in prog["relations"]:
+        r.pop("_force", None)
     return prog
 
 
